@@ -121,7 +121,11 @@ def _run_job(args):
                 if ok:
                     inp = {k: concretise(v, m) for k, v in e.inputs.items()}
                     obs = concretise(res, m)
-                    msg = job.validate(inp, obs)
+                    saved, core.ENG = core.ENG, None   # the concrete re-run must not see an active engine
+                    try:
+                        msg = job.validate(inp, obs)
+                    finally:
+                        core.ENG = saved
                     nval[0] += 1
                     if msg:
                         raise core.Inconclusive("encoding validation failed in %s: %s" % (jobname, msg))
